@@ -9,6 +9,7 @@ P = "Minicbor.C13."
 REQUIRED = [P + n for n in """sink_iff_fits sink_prefix vec_collects sink_independent specSeq_atomic cursor_position
 position_after_encoding failure_is_write_error exact_buffer encoder_puts_sound call_script call_leaves_prefix call_script_all_fit""".split()]
 PACKAGES = ["hcore"]
+DEBUG_TWINS = True
 KINDS = ["slice", "cslice", "carray", "cbox", "io:1", "io:3", "io:64"]
 RULE = ("sinkenc <kind> <cap> <calls>: Encoder call chains (every integer method at its width edges, floats, simple/bool/null, tag/array/map heads at every "
         "width, strings and byte strings around the length-width edges 23/24/255/256/65535/65536, composite chains) into the real sinks &mut [u8], "
